@@ -48,6 +48,9 @@ func NewFilter(config FilterConfig, checker Checker) Filter {
 // always considered healthy.
 func (f *filter) Run(addrs stringset.Set) stringset.Set {
 	if len(addrs) == 1 {
+		// Entries which left the list must be forgotten even though a single
+		// entry is not health checked.
+		f.state.sync(addrs)
 		return addrs.Copy()
 	}
 
